@@ -40,7 +40,7 @@ Keep == UNCHANGED <<conc, bcs, hdr, desc>>
 
 TrNew ==
     /\ Ev("wnew")
-    /\ ws' = "new" /\ pending' = 0 /\ accepted' = 0 /\ items' = <<>> /\ frames' = <<>> /\ failed' = FALSE /\ done' = FALSE
+    /\ ws' = "new" /\ pending' = 0 /\ accepted' = 0 /\ items' = <<>> /\ frames' = <<>> /\ failed' = FALSE /\ done' = FALSE /\ hcalls' = 0
     /\ conc' = Trace[l].conc /\ bcs' = Trace[l].bcs /\ hdr' = Trace[l].hdr
     /\ desc' = <<Trace[l].flg, Trace[l].bd, Trace[l].csize>>
 
@@ -107,7 +107,7 @@ BlocksOf(s) == SelectSeq(s, IsBlock)
 \* the k-th frame written by this Writer (k-th sink segment): archived by Reset, or the current one
 FrameNo(k) ==
     IF k <= Len(frames) THEN frames[k]
-    ELSE [items |-> items, closed |-> done, accepted |-> accepted]
+    ELSE [items |-> items, closed |-> done, accepted |-> accepted, hcalls |-> hcalls]
 
 TrEnd ==
     /\ Ev("wend") /\ Keep /\ UNCHANGED wvars
@@ -126,6 +126,12 @@ TrEnd ==
                  /\ r.blocks = BlocksOf(f.items)
                  /\ r.contentLen = f.accepted
                  /\ r.consumed = r.segLen              \* nothing after the frame in its segment
+                 \* OnBlockDone accounting (beyond the listed properties): the handler ran once per block, twice
+                 \* per block cut by ReadFrom; with a sequential Writer its values add up to the stored sizes
+                 /\ (r.single /\ r.handler /\ ~failed =>
+                        /\ (Sequential => r.hcalls = f.hcalls)
+                        /\ r.hcalls <= f.hcalls
+                        /\ (Sequential /\ f.hcalls = Len(BlocksOf(f.items)) => r.hsum = r.storedsum))
                  \* C17(2): the options (set before the first write) are in force, also after Reset
                  /\ (~Legacy => <<r.flg, r.bd, r.csize>> = desc)
 
